@@ -34,6 +34,8 @@ pub enum Point {
     AfterDec(usize),
     /// any thread: interest queued, accept poll not yet woken
     AfterPush,
+    /// any thread: interest queued and accept poll woken, the caller has not continued yet
+    AfterWake,
     /// server task: accept loop woken with `Stop`, workers not yet told to stop
     AfterStopWake,
 }
